@@ -477,7 +477,7 @@ class DoIPConnection:
         self.protocol_version = protocol_version
         self.separate_diagnostic_message_queue = separate_diagnostic_message_queue
         self._diagnostic_message_queue: asyncio.Queue[DoIPDiagFrame] = asyncio.Queue()
-        self._read_queue: asyncio.Queue[DoIPFrame] = asyncio.Queue()
+        self._read_queue: asyncio.Queue[DoIPFrame | None] = asyncio.Queue()
         self._read_task = asyncio.create_task(self._read_worker())
         self._read_task.add_done_callback(
             handle_task_error,
@@ -570,13 +570,20 @@ class DoIPConnection:
             logger.debug("Feeding EOF to reader and requesting a close")
             self.reader.feed_eof()
             await self.close()
+            # Nothing will arrive anymore: wake up a consumer which is blocked on the queue.
+            self._read_queue.put_nowait(None)
 
     async def read_frame_unsafe(self) -> DoIPFrame:
         # Avoid waiting on the queue forever when
         # the connection has been terminated.
         if self._is_closed:
             raise ConnectionError
-        return await self._read_queue.get()
+        frame = await self._read_queue.get()
+        if frame is None:
+            # Left by the read worker when it terminated; keep it for other consumers.
+            self._read_queue.put_nowait(None)
+            raise ConnectionError("connection lost")
+        return frame
 
     async def read_frame(self) -> DoIPFrame:
         async with self._mutex:
@@ -585,7 +592,7 @@ class DoIPConnection:
     def _requeue(self, frames: list[tuple[Any, Any]]) -> None:
         # Skipped frames were received before everything that is still in the queue,
         # hence they must be delivered first in order to preserve the message order.
-        later_frames: list[DoIPFrame] = []
+        later_frames: list[DoIPFrame | None] = []
         while not self._read_queue.empty():
             later_frames.append(self._read_queue.get_nowait())
         for frame in [*frames, *later_frames]:
